@@ -4,6 +4,8 @@ import (
 	"fmt"
 	"go/types"
 	"math/big"
+	"os"
+	"path/filepath"
 	"regexp"
 	"sort"
 	"strings"
@@ -48,11 +50,13 @@ type Obligation struct {
 type Config struct {
 	MaxPaths     int
 	MaxDepth     int
+	RegionHints  bool // decide block coincidences with the solver when a region is resolved
 	UnitSec      int // wall-clock limit per unit
 	QueryMs      int
 	FeasMs       int // time limit of feasibility checks (unknown counts as feasible)
 	MaxUnroll    int  // default bound for loops without annotation
 	ForceBounded int  // >0: treat every loop as bounded N (bounded stand-in mode)
+	QuickLoopCap int  // >0: "unroll N" loops with N above the cap become "bounded cap" (quick tier)
 	Safety       bool // generate safety obligations
 	FrameCheck   bool // generate frame obligations (stores into pre-existing memory)
 	Z3           string
@@ -63,7 +67,7 @@ type Config struct {
 }
 
 func DefaultConfig() Config {
-	return Config{MaxPaths: 4000, MaxDepth: 14, QueryMs: 5000, FeasMs: 120, UnitSec: 120, MaxUnroll: 3, Safety: true, Z3: "z3-new", WantModel: true, InlineAcross: true}
+	return Config{MaxPaths: 4000, MaxDepth: 14, QueryMs: 5000, FeasMs: 150, UnitSec: 400, MaxUnroll: 3, Safety: true, Z3: "z3-new", WantModel: true, InlineAcross: true}
 }
 
 // Unit is the verification of one target function (or lemma).
@@ -112,6 +116,11 @@ type Unit struct {
 	Standalone int
 	cellByID map[int]*Cell
 	divMemo  map[string]divEntry
+	eqFacts  []eqFact
+	goalMode int
+	reads    map[string][]readRec
+	instDepth int
+	Instances int
 	readMemo map[string]divEntry
 	blkInfo  map[string]blkMeta
 	ifBase   map[string]*Term
@@ -167,6 +176,7 @@ func NewUnit(p *Program, target *ssa.Function, cfg Config) *Unit {
 	u.litArr = map[string]*Term{}
 	u.cellByID = map[int]*Cell{}
 	u.divMemo = map[string]divEntry{}
+	u.reads = map[string][]readRec{}
 	u.readMemo = map[string]divEntry{}
 	u.blkInfo = map[string]blkMeta{}
 	u.ifBase = map[string]*Term{}
@@ -221,7 +231,110 @@ func (u *Unit) newConst(prefix string, s Sort) *Term {
 
 func (u *Unit) newInt(prefix string) *Term  { return u.newConst(prefix, SInt) }
 func (u *Unit) newBool(prefix string) *Term { return u.newConst(prefix, SBool) }
-func (u *Unit) newArr(prefix string) *Term  { return u.newConst(prefix, SArr) }
+// newArr: a fresh uninterpreted byte array.  Reads go through the unit so that
+// the sequence-equality facts known about the array are instantiated at the
+// index being read (executor-side E-matching; the queries stay quantifier-free).
+func (u *Unit) newArr(prefix string) *Term {
+	c := u.newConst(prefix, SArr)
+	name := c.S
+	t := &Term{S: name, Sort: SArr, Base: name}
+	t.Fn = func(idx *Term) *Term {
+		r := app(SInt, "select", c, idx)
+		u.onRead(name, idx, r)
+		return r
+	}
+	return t
+}
+
+type readRec struct {
+	idx, val *Term
+	scope    int
+}
+
+// addEqFact registers a sequence-equality fact and instantiates it at the
+// reads already made from the base arrays it mentions.
+func (u *Unit) addEqFact(f eqFact) {
+	u.eqFacts = append(u.eqFacts, f)
+	for side := 0; side < 2; side++ {
+		a, o, b, ob := f.a1, f.o1, f.a2, f.o2
+		if side == 1 {
+			a, o, b, ob = f.a2, f.o2, f.a1, f.o1
+		}
+		if a.Base == "" {
+			continue
+		}
+		recs := u.reads[a.Base]
+		live := recs[:0]
+		for _, r := range recs {
+			if u.S.Alive(r.scope) {
+				live = append(live, r)
+			}
+		}
+		u.reads[a.Base] = live
+		for _, r := range append([]readRec(nil), live...) {
+			key := fmt.Sprintf("inst:%d:%d@%s", f.id, side, r.idx.S)
+			if e, ok := u.readMemo[key]; ok && u.S.Alive(e.scope) {
+				continue
+			}
+			u.readMemo[key] = divEntry{q: TTrue, scope: u.S.ScopeID()}
+			u.instDepth++
+			other := Select(b, Add(ob, Sub(r.idx, o)))
+			u.instDepth--
+			u.S.Assert(Implies(And(f.guard, Le(o, r.idx), Lt(r.idx, Add(o, f.l))), Eq(r.val, other)))
+			u.Instances++
+		}
+	}
+}
+
+type eqFact struct {
+	id             int
+	guard          *Term
+	a1, o1, a2, o2 *Term
+	l              *Term
+	scope          int
+}
+
+// onRead instantiates, at the index being read, every live sequence-equality
+// fact that mentions the base array.
+func (u *Unit) onRead(base string, idx *Term, val *Term) {
+	if u.binder > 0 {
+		return
+	}
+	// remember the read: facts learnt later are instantiated at it too
+	rk := "read:" + base + "@" + idx.S
+	if e, ok := u.readMemo[rk]; !ok || !u.S.Alive(e.scope) {
+		u.readMemo[rk] = divEntry{q: TTrue, scope: u.S.ScopeID()}
+		u.reads[base] = append(u.reads[base], readRec{idx: idx, val: val, scope: u.S.ScopeID()})
+	}
+	if u.instDepth >= 3 || len(u.eqFacts) == 0 {
+		return
+	}
+	u.instDepth++
+	defer func() { u.instDepth-- }()
+	for i := 0; i < len(u.eqFacts); i++ {
+		f := u.eqFacts[i]
+		if !u.S.Alive(f.scope) {
+			continue
+		}
+		for side := 0; side < 2; side++ {
+			a, o, b, ob := f.a1, f.o1, f.a2, f.o2
+			if side == 1 {
+				a, o, b, ob = f.a2, f.o2, f.a1, f.o1
+			}
+			if a.Base != base {
+				continue
+			}
+			key := fmt.Sprintf("inst:%d:%d@%s", f.id, side, idx.S)
+			if e, ok := u.readMemo[key]; ok && u.S.Alive(e.scope) {
+				continue
+			}
+			u.readMemo[key] = divEntry{q: TTrue, scope: u.S.ScopeID()}
+			other := Select(b, Add(ob, Sub(idx, o)))
+			u.S.Assert(Implies(And(f.guard, Le(o, idx), Lt(idx, Add(o, f.l))), Eq(val, other)))
+			u.Instances++
+		}
+	}
+}
 
 func (u *Unit) declareUF(name string, args []Sort, res Sort) {
 	if u.uf[name] {
@@ -412,8 +525,33 @@ func (u *Unit) check(st *State, name, kind string, goal *Term, text string) bool
 			}
 		}
 	}
-	r, model := u.S.CheckGoalT(goal, want, 1500)
-	if r == "unknown" {
+	var r string
+	var model map[string]string
+	if len(goal.Conj) > 1 && len(goal.Conj) <= 64 {
+		// a conjunction is proved conjunct by conjunct (earlier ones assumed)
+		r = "unsat"
+		u.S.Push()
+		for _, cj := range goal.Conj {
+			rr, mm := u.S.CheckGoalT(cj, want, 1500)
+			if rr == "unknown" {
+				rr, _ = RunScript(u.Cfg.Z3, u.S.Script(cj, "z3"), time.Duration(u.Cfg.QueryMs)*time.Millisecond)
+				u.Standalone++
+				if rr == "unsat" && o.Solver == "" {
+					o.Solver = u.Cfg.Z3 + " (standalone)"
+				}
+			}
+			if rr != "unsat" {
+				r, model = rr, mm
+				goal = cj
+				break
+			}
+			u.S.Assert(cj)
+		}
+		u.S.Pop()
+	} else {
+		r, model = u.S.CheckGoalT(goal, want, 1500)
+	}
+	if r == "unknown" && len(goal.Conj) <= 1 {
 		r2, _ := RunScript(u.Cfg.Z3, u.S.Script(goal, "z3"), time.Duration(u.Cfg.QueryMs)*time.Millisecond)
 		u.Standalone++
 		if r2 == "unsat" {
@@ -440,6 +578,9 @@ func (u *Unit) check(st *State, name, kind string, goal *Term, text string) bool
 		o.Script = u.S.Script(goal, "z3")
 		o.Trace = append([]string(nil), st.trace...)
 		u.snapshotReplay(st, o)
+		if d := os.Getenv("GVC_DUMP_FAIL"); d != "" {
+			os.WriteFile(filepath.Join(d, sanitize(name)[:min(len(sanitize(name)), 80)]+".smt2"), []byte(o.Script), 0o644)
+		}
 	}
 	if r == "sat" {
 		o.Status = "failed"
